@@ -7,7 +7,7 @@ EXPLANATION = ('Decides from MIR: (R13.1) who-may-call: a vertex enters a tree o
                'KinematicsWithShape::collides of the same robot on the converted vector and the sampler is constraints().random_angles(); '
                '(R13.3) root literals, path assembly reverse(ancestors(a)) ++ ancestors(b), reversal iff the second tree is the start tree; '
                '(R13.4) every iteration checks the stop flag before sampling and the raised flag reaches only `return Err`; '
-               '(R13.5) conversion keeps every element in order.  Step-length bounds and convexity of limits are numerical and not decided.')
+               '(R13.5) conversion keeps every element in order; (R13.6) the predicate gating add_vertex is handed down the call chain unchanged (a wrapper `q == target || pred(q)` is accepted only where every target is already a tree vertex).  Step-length bounds and convexity of limits are numerical and not decided.')
 NOT_DECIDED = 'step-length bound between consecutive nodes; in-limit interpolation (numerical consequences of the extend formula)'
 ASSUMPTIONS = ['kdtree / Vec operations behave as documented']
 
@@ -18,6 +18,7 @@ def run(ctx):
     ctx.rule('R13.2', 'is_free == !KinematicsWithShape::collides(kinematics, converted vector); sampler == constraints().random_angles()')
     ctx.rule('R13.3', 'tree created with literal L receives `start`; path = reverse(ancestors(a)) ++ ancestors(b), reversed iff tree_b.name == L')
     ctx.rule('R13.4', 'the stop flag is loaded in every iteration before sampling/extension; its true edge reaches only return Err')
+    ctx.rule('R13.6', 'every call in the planner hands the collision predicate it received on unchanged (a `q == target || pred(q)` wrapper only where every target is already a tree vertex)')
     ctx.rule('R13.5', 'result conversion maps every inner vector in order (no filter / skip)')
     dual = prog.find(suffix='rrt_to::dual_rrt_connect')
     ctx.require(len(dual) == 1, 'rrt_to::dual_rrt_connect')
@@ -133,7 +134,100 @@ def run(ctx):
     ctx.check(ok, 'R13.4', 'stop-check', dual.where(loads[0][0]) if loads else dual.where(0), dual.path,
               'cancellation must be checked in every iteration before any sampling/extension and lead to Err: ' + msg, detail=msg)
 
+    _predicate_pass_through(ctx, prog, dual)
     _planner(ctx, prog, dual)
+
+
+def _predicate_pass_through(ctx, prog, dual):
+    """R13.6: the collision predicate that gates add_vertex (R13.1) is, at every level of the call chain, the predicate the
+    planner supplied: each call of a function with a predicate parameter (type parameter FF) passes the caller's own
+    predicate on unchanged.  A wrapper is accepted only in the form `q == T || pred(q)` and only when every caller of the
+    wrapping function passes for T a configuration that is already a tree vertex (hence already checked)."""
+    mod = dual.path.rsplit('::', 1)[0]
+    fns = [b for p, b in prog.bodies.items() if p.startswith(mod + '::') and b.kind != 'Closure']
+
+    def ff_params(b):
+        return [i for i in range(1, b.arg_count + 1) if b.local_ty(i).replace('&mut ', '').replace('&', '').strip() == 'FF']
+    gated = {b.path: ff_params(b) for b in fns if ff_params(b)}
+    exempt_targets = {}          # function path -> parameter index whose value may bypass the predicate
+    sites = 0
+    for b in fns:
+        for bi, t in b.calls():
+            callee = t['callee'].get('resolved')
+            if callee not in gated or b.path not in gated:
+                continue
+            for p in gated[callee]:
+                sites += 1
+                raw = b.op_term(t['args'][p - 1], (bi, None))
+                a = strip(raw)
+                key = '%s->%s' % (b.path.split('::')[-1], callee.split('::')[-1])
+                if isinstance(a, tuple) and a[0] in ('param', 'mparam') and a[1] in gated[b.path]:
+                    ctx.ok('R13.6', key, b.where(bi), 'predicate passed on unchanged')
+                    continue
+                tp = _bypass_wrapper(prog, b, a)
+                if tp is not None:
+                    exempt_targets[b.path] = tp
+                    ctx.ok('R13.6', key, b.where(bi), 'wrapper `q == target || pred(q)`; callers checked below')
+                    continue
+                ctx.violation('R13.6', key, b.where(bi), b.path,
+                              'the collision predicate handed down is not the one the planner supplied (a weakened or replaced predicate lets unchecked configurations into the tree)',
+                              found=show(raw, maxdepth=5))
+    ctx.floor('R13.6 predicate hand-over sites', sites, 3)
+    for fpath, tp in exempt_targets.items():
+        for b in fns:
+            for bi, t in b.calls():
+                if t['callee'].get('resolved') != fpath:
+                    continue
+                a = strip(b.op_term(t['args'][tp - 1], (bi, None)))
+                while isinstance(a, tuple) and a[0] == 'call' and cname(a[1]) in ('Deref::deref', 'AsRef::as_ref', 'Vec::as_slice'):
+                    a = strip(a[2])
+                vertex = isinstance(a, tuple) and a[0] == 'fld' and a[2] == 'data' and mir.contains(a, lambda x: x[0] == 'fld' and x[2] == 'vertices')
+                pass_on = isinstance(a, tuple) and a[0] == 'param' and exempt_targets.get(b.path) == a[1]
+                ctx.check(vertex or pass_on, 'R13.6', 'bypass-target@%s' % b.path.split('::')[-1], b.where(bi), b.path,
+                          '%s admits its target without the collision check, so the target must already be a tree vertex; here it is not' % fpath.split('::')[-1],
+                          found=show(a, maxdepth=5))
+
+
+def _bypass_wrapper(prog, b, a):
+    """a == closure |q| q == T || pred(q) with pred the caller's predicate parameter and T a parameter of the caller -> index of T"""
+    if not (isinstance(a, tuple) and a[0] == 'agg' and str(a[1]).startswith('closure:')):
+        return None
+    cb = prog.bodies.get(a[1][len('closure:'):])
+    if cb is None:
+        return None
+    target = None
+    for t, d, rb in cb.return_values():
+        t = strip(t)
+        gs = [(strip(g), opw.truth(k)) for g, k, sw in cb.guard_terms(d[1])]
+        eqs = [(g, v) for g, v in gs if isinstance(g, tuple) and g[0] == 'call' and cname(g[1]).endswith('::eq')]
+        if len(eqs) != 1 or len(gs) != 1:
+            return None
+        g, v = eqs[0]
+        sides = [strip(g[2]), strip(g[3])]
+        q = [x for x in sides if util.is_param(x, 2)]
+        cap = [x for x in sides if isinstance(x, tuple) and x[0] == 'fld' and util.is_param(strip(x[1]), 1)]
+        if len(q) != 1 or len(cap) != 1:
+            return None
+        target = cap[0][2]
+        if v is True:
+            if util.const_val(t) not in (1, True):
+                return None
+        else:
+            if not (isinstance(t, tuple) and t[0] == 'call' and cname(t[1]) in ('FnMut::call_mut', 'Fn::call', 'FnOnce::call_once')):
+                return None
+            callee = strip(t[2])
+            arg = strip(t[3])
+            a0 = strip(arg[2]) if isinstance(arg, tuple) and arg[0] == 'agg' and len(arg) > 2 else None
+            if not (isinstance(callee, tuple) and callee[0] == 'fld' and util.is_param(strip(callee[1]), 1) and a0 is not None and util.is_param(a0, 2)):
+                return None
+            pred_name = callee[2].lstrip('*')
+            pi = [i for i in range(1, b.arg_count + 1) if b.name_of(i) == pred_name]
+            if not pi or 'FF' not in b.local_ty(pi[0]):
+                return None
+    if target is None:
+        return None
+    ti = [i for i in range(1, b.arg_count + 1) if b.name_of(i) == target.lstrip('*')]
+    return ti[0] if ti else None
 
 
 def _switch_after(b, bi):
